@@ -39,6 +39,13 @@ def gen_ops(tier, rng):
                         S = sorted(rng.sample(range(d), rng.randint(1, d)))
                         nils = [c for c in range(d) if c not in S and rng.random() < 0.4]
                         ops.append((f"frame {fam} {o} {d} {p} {size} {seed} upd {lst(S)} {lst(nils)}", {"cat": "upd", "w": 1}))
+    # the encoder served a larger shard size first (pooled work buffers are longer than this call needs)
+    for fam in fams:
+        leo = fam.startswith("leo")
+        for (d, p) in [(2, 1), (4, 4), (5, 3), (10, 4)]:
+            for (small, big) in ([(64, 1024), (128, 192), (256, 32768 + 64), (64, 128)] if leo else [(10, 1000), (100, 5000), (64, 65), (1000, 70000)]):
+                for _ in range(2 if tier == "quick" else 10):
+                    ops.append((f"frame {fam} {rng.choice(OPTSETS)} {d} {p} {small} {rng.randrange(1, 1<<30)} encw {big}", {"cat": "enc-after-larger", "w": 1}))
     # all erasure patterns of small configurations x modes x capacity modes
     for fam in fams:
         leo = fam.startswith("leo")
